@@ -668,3 +668,90 @@ pub fn verif_best_split_regressor<T: RealNumber, M: Matrix<T>>(
         )
     })
 }
+
+/// Verification hook: result of one growth step (`find_best_cutoff` + `split`) from an arbitrary state.
+#[cfg(feature = "verif")]
+#[derive(Debug)]
+pub struct VerifSplitStep<T> {
+    /// did `find_best_cutoff` find a split for the node
+    pub cutoff_found: bool,
+    /// did `split` create the two children
+    pub split_done: bool,
+    /// (feature, threshold) of the node after the step
+    pub split: Option<(usize, T)>,
+    /// tree depth recorded after the step
+    pub depth: u16,
+    /// number of nodes after the step
+    pub n_nodes: usize,
+    /// outputs of the true / false child (valid if `split_done`)
+    pub child_outputs: (T, T),
+    /// sample weights routed to the true / false child (valid if `split_done`)
+    pub child_samples: (Vec<usize>, Vec<usize>),
+    /// (node id, level) of every visitor queued for further growth
+    pub queued: Vec<(usize, u16)>,
+}
+
+/// Verification hook: run one growth step of the regression tree on a node holding `samples`, at `level`.
+#[cfg(feature = "verif")]
+pub fn verif_split_step_regressor<T: RealNumber, M: Matrix<T>>(
+    x: &M,
+    y: &M::RowVector,
+    samples: Vec<usize>,
+    level: u16,
+    parameters: DecisionTreeRegressorParameters,
+) -> VerifSplitStep<T> {
+    let mut rng = rand::rngs::mock::StepRng::new(0, 1);
+    let y_m = M::from_row_vector(y.clone());
+    let (n_rows, num_attributes) = x.shape();
+    let mut n = 0;
+    let mut sum = T::zero();
+    for (i, s) in samples.iter().enumerate() {
+        n += *s;
+        sum += T::from(*s).unwrap() * y_m.get(0, i);
+    }
+    let mut order: Vec<Vec<usize>> = Vec::new();
+    for i in 0..num_attributes {
+        order.push(x.get_col_as_vec(i).quick_argsort_mut());
+    }
+    let mut tree = DecisionTreeRegressor {
+        nodes: vec![Node::new(0, sum / T::from(n).unwrap())],
+        parameters,
+        depth: 0,
+    };
+    let before = samples.clone();
+    let mut visitor = NodeVisitor::<T, M>::new(0, samples, &order, x, &y_m, level);
+    let mut queue: LinkedList<NodeVisitor<'_, T, M>> = LinkedList::new();
+    let cutoff_found = tree.find_best_cutoff(&mut visitor, num_attributes, &mut rng);
+    let mut split_done = false;
+    if cutoff_found {
+        split_done = tree.split(visitor, num_attributes, &mut queue, &mut rng);
+    }
+    let split = tree.nodes[0].split_value.map(|v| (tree.nodes[0].split_feature, v));
+    let mut t_s = vec![0usize; n_rows];
+    let mut f_s = vec![0usize; n_rows];
+    if let Some((f, thr)) = split {
+        for i in 0..n_rows {
+            if x.get(i, f) <= thr {
+                t_s[i] = before[i];
+            } else {
+                f_s[i] = before[i];
+            }
+        }
+    }
+    let child_outputs = if split_done {
+        (tree.nodes[1].output, tree.nodes[2].output)
+    } else {
+        (T::zero(), T::zero())
+    };
+    let queued = queue.iter().map(|v| (v.node, v.level)).collect();
+    VerifSplitStep {
+        cutoff_found,
+        split_done,
+        split,
+        depth: tree.depth,
+        n_nodes: tree.nodes.len(),
+        child_outputs,
+        child_samples: (t_s, f_s),
+        queued,
+    }
+}
